@@ -59,16 +59,52 @@ class SymNum(object):
         raise core.EngineUnsupported("truth value of a symbolic number")
 
 
+def int_value_wide(text, width=84):
+    """(value as unsigned BV `width` of the digits, is_negative) of an int-grammar text"""
+    t = SymStr.lift(SymStr.lift(text).replace("_", ""))
+    t = SymStr.lift(t.strip())
+    val = z3.BitVecVal(0, width)
+    neg = False
+    for i in range(t.cap):
+        inl = t.inlen(i)
+        d = z.And(inl, isdigit(t.chars[i]))
+        dv = z3.ZeroExt(width - 8, z.bv_c(t.chars[i])) - 48
+        val = z3.If(z.b_z(d), val * 10 + dv, val)
+        neg = z.Or(neg, z.And(inl, z.eq_c(t.chars[i], 45)))
+    return val, neg
+
+
+def int_fits64(text):
+    """Boolean: the integer literal fits a signed 64-bit integer"""
+    val, neg = int_value_wide(text)
+    lim = z3.If(z.b_z(neg), z3.BitVecVal(2 ** 63, 84), z3.BitVecVal(2 ** 63 - 1, 84))
+    return z3.ULE(val, lim)
+
+
 def np_int64(x):
     if B_decide(symre.fullmatch_expr(INT_RE, x)):
-        # digits <= 18 always fit int64; longer texts are outside the stated bound
-        if x.cap > 18:
-            raise core.OutOfBound("integer literal longer than 18 characters")
-        return SymNum("int", x)
+        if x.cap > 24:
+            raise core.OutOfBound("integer literal longer than 24 characters")
+        if x.cap <= 18 or B_decide(z.simp(int_fits64(x))):
+            return SymNum("int", x)
+        raise OverflowError("Python int too large to convert to C long")
     raise ValueError("invalid literal for int() with base 10: <symbolic>")
 
 
-py_int = np_int64
+PY_INT_BOUND = 200
+
+
+def py_int(x):
+    """int(text) for short texts: a SymInt (|value| <= PY_INT_BOUND, larger values are outside the bound)"""
+    from .values import SymInt
+
+    if not B_decide(symre.fullmatch_expr(INT_RE, x)):
+        raise ValueError("invalid literal for int() with base 10: <symbolic>")
+    val, neg = int_value_wide(x, 40)
+    if not B_decide(z.simp(z3.ULE(val, PY_INT_BOUND))):
+        raise core.OutOfBound("int(text) beyond +-%d" % PY_INT_BOUND)
+    v = z3.Extract(z.IW - 1, 0, val)
+    return SymInt(z.simp(z3.If(z.b_z(neg), -v, v)), (-PY_INT_BOUND, PY_INT_BOUND))
 
 
 def np_float64(x):
